@@ -45,7 +45,7 @@ fn run(ctx: &Ctx) {
     // generated composites, generated preferences
     for (i, a) in ALGOS.iter().enumerate() {
         let heavy = matches!(*a, "siqs" | "auto" | "mpqs" | "qs");
-        let per = ctx.n(if heavy { 700 } else { 1500 }, 60_000) as usize;
+        let per = ctx.n(if heavy { 1500 } else { 3000 }, 60_000) as usize;
         let strat = case_strategy(a, quick, true);
         let mut cases = ctx.sample_strategy(check, i as u64, &strat, per);
         // preferences only matter to the sieves and ECM; keep half of the cases at the defaults
